@@ -46,6 +46,49 @@ def classify(msg):
     return "tool"
 
 
+def _auto_consts(text, linemap, meta, repo, stderr, tpath):
+    """A refactor may introduce a named constant (`const MAX_X: u32 = ..`) that the template
+    does not know.  Constants carry no contract, so including them verbatim is harmless:
+    when rustc reports `cannot find value `X`` and a `const X` exists in a source file the
+    group already extracts from, it is appended (logged as rule X1:auto-const)."""
+    names = set(re.findall(r"cannot find value `([A-Z][A-Z0-9_]*)` in this scope", stderr))
+    if not names:
+        return None
+    files = sorted(set(k.split("::")[0] for k in meta["hashes"]))
+    added = []
+    for n in sorted(names):
+        for rel in files:
+            p = os.path.join(repo, rel)
+            if not os.path.exists(p):
+                continue
+            src = open(p).read()
+            masked = extract.mask_source(src)
+            for it in extract.list_items(src, masked, 0, len(src), 0):
+                if it[0] == "const" and it[1] == n:
+                    added.append((n, rel, src[it[2]:it[3]], src.count("\n", 0, it[2]) + 1))
+                    break
+            else:
+                continue
+            break
+    if len(added) != len(names):
+        return None
+    marker = "} // verus!"
+    k = text.rfind(marker)
+    if k < 0:
+        return None
+    ins = "".join("// auto-included constant (X1:auto-const) from %s:%d\n%s\n" % (rel, ln, extract.x1_strip(body, set())) for (n, rel, body, ln) in added)
+    new_text = text[:k] + ins + text[k:]
+    line_at = text.count("\n", 0, k)
+    extra = []
+    for (n, rel, body, ln) in added:
+        extra.append((tpath, 0))
+        for j in range(body.count("\n") + 1):
+            extra.append((rel, ln + j))
+        meta["rules"].setdefault("%s::const %s" % (rel, n), []).append("X1:auto-const")
+    new_map = linemap[:line_at] + extra + linemap[line_at:]
+    return new_text, new_map
+
+
 def run_group(group, repo="/repo", extra_args=None, keep=False, seed=None):
     os.makedirs(WORK, exist_ok=True)
     tpath = os.path.join(VERIF, "contracts", group + ".vt")
@@ -70,6 +113,12 @@ def run_group(group, repo="/repo", extra_args=None, keep=False, seed=None):
         cmd += extra_args
     res["cmd"] = " ".join(cmd)
     p = subprocess.run(cmd, cwd=WORK, capture_output=True, text=True)
+    if "cannot find value `" in p.stderr:
+        auto = _auto_consts(text, linemap, meta, repo, p.stderr, tpath)
+        if auto:
+            text, linemap = auto
+            open(out, "w").write(text)
+            p = subprocess.run(cmd, cwd=WORK, capture_output=True, text=True)
     res["wall_s"] = time.time() - t0
     # diagnostics (stderr, one JSON object per line)
     regions = meta["fn_regions"]
